@@ -117,6 +117,10 @@ func genC04Case(t *rapid.T) C04Case {
 	// key whose certificate is published for that request's issuer
 	spec.KeysPerIssuer = rapid.IntRange(0, 2).Draw(t, "keysperissuer") == 0
 	sp := stdSP(0)
+	// what the provider wishes for, and how long copies of its metadata may be kept: nothing of it unsigns what leaves the IdP
+	sp.WantAssertionsSigned = rapid.SampledFrom([]string{"", "", "true", "false", "0", "1"}).Draw(t, "wantassertionssigned")
+	sp.AuthnRequestsSigned = rapid.SampledFrom([]string{A, A, "false", "0"}).Draw(t, "spsigned")
+	sp.ValidUntil = rapid.SampledFrom([]string{"", "", "@future", "@past"}).Draw(t, "validuntil")
 	switch c.Kind {
 	case "attrquery":
 		if rapid.Bool().Draw(t, "oddentity") {
